@@ -55,14 +55,21 @@ def cand_paths(c):
     return pre + ".".join(c["path"]), None, None
 
 
-def to_field_mapping(m):
-    """the documented YAML structure (key_paths / key_value / value_paths with nested lists for priorities)"""
+FORMS = ("canonical", "explicit-null", "nested-single")
+
+
+def to_field_mapping(m, form="canonical"):
+    """the documented YAML structure (key_paths / key_value / value_paths with nested lists for priorities).
+    Surface forms with the same documented meaning: "canonical" - a position with one candidate is a plain string and
+    key_value / value_paths are left out when no position needs them; "explicit-null" - key_value / value_paths are
+    always given, with null where a path needs none; "nested-single" - every position is an array, also when it
+    holds a single candidate."""
     out = {}
     for f in FIELDS:
         kps, kvs, vps = [], [], []
         for pos in m[f]:
             trip = [cand_paths(c) for c in pos]
-            if len(trip) == 1:
+            if len(trip) == 1 and form != "nested-single":
                 kps.append(trip[0][0])
                 kvs.append(trip[0][1])
                 vps.append(trip[0][2])
@@ -71,7 +78,7 @@ def to_field_mapping(m):
                 kvs.append([t[1] for t in trip])
                 vps.append([t[2] for t in trip])
         spec = {"key_paths": kps, "value_type": "string"}
-        if any(v is not None and v != [None] * len(v) if isinstance(v, list) else v is not None for v in kvs):
+        if form != "canonical" or any(v is not None and v != [None] * len(v) if isinstance(v, list) else v is not None for v in kvs):
             spec["key_value"] = kvs
             spec["value_paths"] = vps
         out[f] = spec
